@@ -365,3 +365,69 @@ def subsets_or_sample(labels, rng, limit):
     while len(out) < limit:
         out.append(frozenset(l for l in labels if rng.chance(1, 2)))
     return out[:max(limit, len(out))]
+
+
+# ---------------------------------------------------------------- members the source declares but the specification does not know
+def novel_members(schema, feats):
+    """Reads coq/Gen/Generated.v (the declarations regenerated from /repo's source by the translator) and returns, for every
+    text-keyed structure of the specification, the members the SOURCE declares under the feature set `feats` whose key the
+    specification tables do not list: [(struct name, key, sample wire value)].  Empty on the unchanged tree.  Used only to aim the
+    search for a failing input when a declaration obligation no longer holds; the verdict never rests on it."""
+    import os, re
+    path = os.path.join(os.path.dirname(os.path.dirname(os.path.abspath(__file__))), "coq", "Gen", "Generated.v")
+    try:
+        text = open(path).read()
+    except OSError:
+        return []
+
+    def cfg_true(c):
+        c = c.strip()
+        if c == "CTrue":
+            return True
+        m = re.fullmatch(r'\(?CFeat "([^"]*)"\)?', c)
+        if m:
+            return m.group(1) in feats
+        m = re.fullmatch(r"\(CNot (.*)\)", c)
+        if m:
+            return not cfg_true(m.group(1))
+        return True          # unknown shape: assume present
+
+    def camel(n):
+        parts = n.split("_")
+        return parts[0] + "".join(p[:1].upper() + p[1:] for p in parts[1:])
+
+    def sample(ty):
+        ty = ty.strip()
+        if ty.startswith("(TOpt "):
+            return sample(ty[6:-1])
+        if ty == "TBool":
+            return True
+        if ty in ("TU8", "TU16", "TU32", "TU64", "TUsize", "TI32", "TI8"):
+            return 1
+        if ty.startswith("(TBytesCap") or ty == "TBytesRef":
+            return b"\x01"
+        if ty.startswith("(TStrCap") or ty == "TStrRef":
+            return "a"
+        return None
+
+    out = []
+    for m in re.finditer(r'RStruct \{\| rs_name := "([^"]+)"; rs_kind := \(KTxt (None|\(Some "([^"]*)"\))\);.*?rs_fields := \[(.*?)\] \|\}\)', text, re.S):
+        name, ra, body = m.group(1), m.group(3), m.group(4)
+        d = schema.get(name)
+        if not d or d.get("kind") != "struct" or d.get("idx"):
+            continue
+        known = set()
+        for f in d["fields"]:
+            known.add(f["key"])
+            known.update(f["aliases"])
+        for fm in re.finditer(r'\{\| rf_name := "([^"]+)"; rf_cfg := (.*?); rf_ty := (.*?); rf_attrs := \[(.*?)\]; rf_pub', body, re.S):
+            fname, cfg, ty, attrs = fm.groups()
+            if not cfg_true(cfg):
+                continue
+            rn = re.search(r'ARename "([^"]*)"', attrs)
+            key = rn.group(1) if rn else (camel(fname) if ra == "camelCase" else fname)
+            if key not in known:
+                v = sample(ty)
+                if v is not None:
+                    out.append((name, key, v))
+    return out
